@@ -581,7 +581,15 @@ class DimensionValue(Value):
                     )
                     return
             else:
-                val = int(sign + v)
+                try:
+                    val = int(sign + v)
+                except ValueError:
+                    # more digits than int() converts (sys.int_info.default_max_str_digits)
+                    self.wellformed = False
+                    self._log.error(
+                        'DimensionValue: Number too large: %r' % self._valuestr(cssText)
+                    )
+                    return
 
             dim = None
             if d:
